@@ -35,12 +35,26 @@ def regcap_parts(name):
     return None
 
 
+def _hex_literal_reading(s):
+    """An operand name of the form <hex>h is the DSL's Intel-style spelling of the hexadecimal literal 0x<hex> (unit-tested in
+    the repository: A3h -> 0xA3); it is then an operand name like any other."""
+    if isinstance(s, str) and s.endswith("h") and len(s) > 1:
+        try:
+            int(s[:-1], 16)
+            return "0x" + s[:-1]
+        except ValueError:
+            return s
+    return s
+
+
 def split_item(node):
     """node: str|int|dict -> (name, body, (min,max)); body: None | list | dict (for $deref)."""
     if isinstance(node, (str, int)):
         return node, None, (1, 1)
     keys = list(node.keys())
     name = keys[0]
+    if name == "times" and len(keys) > 1:
+        name = keys[1]  # a YAML mapping has no order: the sibling key `times` may be written before the item it belongs to
     body = node[name]
     times = None
     if "times" in node and name != "times":
@@ -222,6 +236,7 @@ class Ref:
             return {(k + 1, _envset(env, s, ("O", op)))}
         if self.any is not None and s == self.any:
             return {(k + 1, env)} if op != "" else set()
+        s = _hex_literal_reading(s)
         ok = (s == op) if self.op_full else (s in op)
         return {(k + 1, env)} if ok else set()
 
@@ -257,6 +272,9 @@ class Ref:
 
 def _alts(v, pre):
     v = str(v)
+    if pre == "0x" and v.startswith("-"):
+        # "constants optionally without 0x": in a negative constant the 0x follows the sign (-8 is -0x8)
+        return {"-" + x for x in _alts(v[1:], pre)}
     return {v, pre + v} if not v.startswith(pre) else {v, v[len(pre):]}
 
 
